@@ -90,14 +90,53 @@ def validate(ctx, rows, shards=1, tagname="t"):
     return acc
 
 
-def sig_of(row):
-    """Signature of a rejected history: what its Dial calls returned, whether an ID was seen twice, concurrency."""
-    parts = []
+RERUNS = 12   # Roller shuffles with its own PRNG: a rejected history is re-run up to RERUNS times in fresh processes
+
+
+def classes_of(row):
+    """Describes WHAT is odd in a rejected history (TLC has already rejected it; this only names the class for the
+    signature): a set of class names, computed from the observations alone."""
+    out = set()
+    w = row["preset"]
     for st in row["steps"]:
+        conf = set(row["configured"])
         for d in st["dials"]:
-            dup = "dup" if len(set(d["seen"])) != len(d["seen"]) else "nodup"
-            parts.append("%s/%s/n%d" % (d["ret"], dup, st["n"]))
-    return "rejected:" + "+".join(sorted(set(parts)))
+            seen = d["seen"]
+            if len(set(seen)) != len(seen):
+                out.add("id-tried-twice")
+            if st["n"] == 1 and w != "-" and seen and seen[0] != w:
+                out.add("working-id-not-first")
+            if any(x in st["accept"] for x in seen[:-1]):
+                out.add("kept-trying-after-accepted-id")
+            if d["ret"] == "hserr" and not st["tcpfail"] and st["n"] == 1 and not (conf | ({w} - {"-"})) <= set(seen):
+                out.add("configured-id-never-tried")
+            if d["ret"] == "hserr" and st["n"] == 2 and not conf <= set(seen):
+                out.add("configured-id-never-tried")
+            if d["ret"] == "hserr" and any(x in st["accept"] for x in seen):
+                out.add("failed-although-an-id-was-accepted")
+            if d["ret"] == "ok" and (not seen or d["conn"] != seen[-1] or d["conn"] not in st["accept"]):
+                out.add("returned-conn-not-the-accepted-id")
+            if st["tcpfail"] and (d["ret"] != "tcperr" or seen):
+                out.add("tcp-error-not-immediate")
+            if not st["tcpfail"] and d["ret"] == "tcperr":
+                out.add("spurious-tcp-error")
+            if any(x != d["given"] for x in d["snis"]) or (d["ret"] == "ok" and d["csni"] != d["given"]):
+                out.add("sni-not-the-given-name")
+            if d["ret"] not in ("ok", "hserr", "tcperr"):
+                out.add("dial-" + d["ret"])
+            if any(x not in conf and x != w for x in seen) and st["n"] == 1:
+                out.add("unconfigured-id-tried")
+        oks = [d["conn"] for d in st["dials"] if d["ret"] == "ok"]
+        if (oks and st["working"] not in oks) or (not oks and st["working"] != w):
+            out.add("working-id-not-recorded")
+        if st["stray"]:
+            out.add("stray-hello")
+        w = st["working"]
+    return out or {"other"}
+
+
+def sig_of(classes):
+    return "rejected:" + "+".join(sorted(classes))
 
 
 def run(ctx):
@@ -114,16 +153,17 @@ def _run(ctx, pool):
     q = ctx.quick
     if getattr(ctx, "replay", None):      # ./check C29 --replay replays/C29/<x>.json
         sc = dict(ctx.replay.get("replay", ctx.replay)["scenario"], id=1)
-        oks = []
-        for k in range(2):
+        n = 0
+        for k in range(RERUNS):
             rows, _ = run_roller(ctx, [sc], "c29-replay%d" % k, race=False)
-            oks.append((1 in validate(ctx, [rows[1]], tagname="p%d" % k), rows[1]))
+            n += 1
             ctx.traces += 1
-        if not oks[0][0] and not oks[1][0]:
-            ctx.finding(sig_of(oks[1][1]), "replayed Dial history is rejected by Roller_Trace (twice)", {"scenario": sc, "observed": oks[1][1]})
-        elif oks[0][0] != oks[1][0]:
-            raise vlib.Machinery("replay is not reproducible")
-        return "model_checking", {"evaluations": 2, "distinct_nontrivial": 1, "rule": "replay of one recorded history, twice", "samples": [sc], "exhaustive": False}, []
+            if 1 not in validate(ctx, [rows[1]], tagname="p%d_" % k):
+                for c in sorted(classes_of(rows[1])):
+                    ctx.finding("rejected:" + c, "replayed Dial history is rejected by Roller_Trace (run %d, class %s)" % (k + 1, c),
+                                {"scenario": {k2: sc[k2] for k2 in ("configured", "preset", "steps")}, "class": c})
+                break
+        return "model_checking", {"evaluations": n, "distinct_nontrivial": 1, "rule": "replay of one recorded history, up to %d runs until one is rejected" % RERUNS, "samples": [sc], "exhaustive": False}, []
     # ------------------------------------------------------------------ 1. model checking (background)
     safe_cfg = mkcfg(ctx, "Roller_MC", "c29_safe", MaxSteps="2" if q else "3")
     cov_cfg = mkcfg(ctx, "Roller_MC", "c29_cov", MaxSteps="1")
@@ -164,21 +204,34 @@ def _run(ctx, pool):
     ctx.traces += len(allrows)
     rejected = [s for s in scs if s["id"] not in acc]
     sigs = {}
+    reruns_used = 0
     if rejected:
-        rows2, _ = run_roller(ctx, rejected, "c29-repro", race=False)
-        acc2 = validate(ctx, [rows2[s["id"]] for s in rejected], shards=2, tagname="r")
-        ctx.traces += len(rejected)
-        unrepro = [s["id"] for s in rejected if s["id"] in acc2]
-        for s in rejected:
-            if s["id"] in acc2:
-                continue
-            r = rows2[s["id"]]
-            sg = sig_of(r)
-            sigs[s["id"]] = sg
-            ctx.finding(sg, "recorded Dial history is not a behaviour of Roller (twice): %s" % json.dumps(r["steps"][-1]), {"scenario": s, "observed": r})
-        if unrepro:
-            raise vlib.Machinery("%d rejected histories did not reproduce (ids %s); first run of the first one: %s"
-                                 % (len(unrepro), unrepro[:10], json.dumps(rows[unrepro[0]])[:3000]))
+        # Every rejection is an observation of the real code leaving the specification; the re-runs (fresh processes)
+        # only guard against a flaky harness. Roller shuffles with its own PRNG, so a history counts as reproduced as
+        # soon as ANY re-run is rejected again with a common class; only "never again in RERUNS re-runs" is exit 2.
+        first = {s["id"]: classes_of(rows[s["id"]]) for s in rejected}
+        pending = list(rejected)
+        for k in range(RERUNS):
+            if not pending:
+                break
+            reruns_used = k + 1
+            rows2, _ = run_roller(ctx, pending, "c29-repro%d" % k, race=False)
+            acc2 = validate(ctx, [rows2[s["id"]] for s in pending], shards=2, tagname="r%d_" % k)
+            ctx.traces += len(pending)
+            still = []
+            for s in pending:
+                common = set() if s["id"] in acc2 else (first[s["id"]] & classes_of(rows2[s["id"]]))
+                if not common:
+                    still.append(s)
+                    continue
+                sigs[s["id"]] = sig_of(common)
+                for c in sorted(common):
+                    ctx.finding("rejected:" + c, "recorded Dial history is not a behaviour of Roller (first run and re-run %d, class %s): last step %s"
+                                % (k + 1, c, json.dumps(rows2[s["id"]]["steps"][-1])), {"scenario": {k2: s[k2] for k2 in ("configured", "preset", "steps")}, "class": c})
+            pending = still
+        if pending:
+            raise vlib.Machinery("%d rejected histories were never rejected again in %d re-runs (ids %s, classes %s); first run of the first one: %s"
+                                 % (len(pending), RERUNS, [s["id"] for s in pending][:10], sorted(first[pending[0]["id"]]), json.dumps(rows[pending[0]["id"]])[:3000]))
 
     # ------------------------------------------------------------------ 4. binding canaries
     def two_tried(r):   # first call: a preset working ID is tried first and refused, a later ID is accepted
@@ -251,7 +304,7 @@ def _run(ctx, pool):
              "rule": "evaluations = Roller.Dial calls made on the real code (loopback TCP, -race); distinct = distinct Dial histories "
                      "(configured set, preset working ID, per step accept set / TCP failure / 1-2 concurrent callers) chosen by TLC "
                      "and judged by TLC (Roller_Trace): shuffles and interleavings are found by TLC, hellos seen by the server, results and WorkingHelloID are bound",
-             "histories": len(scs), "accepted": len(acc), "rejected_and_reproduced": len(sigs), "rejected_signatures": sorted(set(sigs.values())),
+             "histories": len(scs), "accepted": len(acc), "rejected_and_reproduced": len(sigs), "rejected_signatures": sorted(set(sigs.values())), "rerun_rounds_used": reruns_used,
              "hellos_seen_by_server": nhello, "branches_seen_in_accepted_histories": seen, "canaries_rejected": names,
              "mc_actions_covered": {a: cov.coverage.get(a, 0) for a in MC_ACTIONS},
              "model": {"safety_states": safe.distinct, "max_steps": 2 if q else 3, "liveness_states": live.distinct},
